@@ -7,7 +7,7 @@ import cxx2coq
 
 # class -> (define for inst.cpp, AST filter)
 CLASSES = [('HashSet', 'INST_HASHSET'), ('TreeSet', 'INST_TREESET'), ('HashMap', 'INST_HASHMAP'),
-           ('TreeMap', 'INST_TREEMAP'), ('HashMultiMap', 'INST_HASHMULTIMAP')]
+           ('TreeMap', 'INST_TREEMAP'), ('HashMultiMap', 'INST_HASHMULTIMAP'), ('DataTable', 'INST_DATATABLE')]
 # version cells: tag -> how a bump of it looks in the AST
 OWN_CALLS = {'IncVersion': 'version'}                                  # mCrew.IncVersion()
 OWN_INCS = {'GetValueVersion': 'valueVersion', 'GetChangeVersion': 'changeVersion', 'GetRemoveVersion': 'removeVersion'}
@@ -166,16 +166,25 @@ def analyse(cls, define, repo, prev):
     return rows
 
 
+# DataTable is instantiated implicitly (not all of its members are valid for one column list): members without a body are
+# left out of the table, except that every member with one of these names MUST have a body
+DT_MUST = ('Clear', 'Assign', 'Remove', 'Extract', 'Add', 'AddRow', 'TryAdd', 'TryAddRow', 'Insert', 'InsertRow', 'TryInsert',
+           'TryInsertRow', 'Update', 'TryUpdate')
+
+
 def build(repo, classes=None):
     prev = {}; rows = []
     for cls, define in CLASSES:
         if classes and cls not in classes:
             continue
-        rows += analyse(cls, define, repo, prev)
+        rs = analyse(cls, define, repo, prev)
+        if cls == 'DataTable':
+            rs = [r for r in rs if not r['uninstantiated'] or r['method'].split('(')[0] in DT_MUST]
+        rows += rs
     return rows
 
 
-def to_coq(rows):
+def to_coq(rows, leak_rows=()):
     def sl(l): return '[' + '; '.join('"%s"' % x for x in l) + ']'
     out = ['(* GENERATED by props/C15/vtable.py from the clang AST of /repo/include/momo (do not edit).',
            '   (class, public method, version cells certainly bumped on some path = reachable in every instantiation,',
@@ -187,6 +196,10 @@ def to_coq(rows):
         body.append('  ("%s", "%s", %s, %s)' % (r['class'], r['method'].replace('"', "'"), sl(r['all']), sl(r['any'])))
     out.append(';\n'.join(body))
     out.append('].')
+    out.append('(* path-sensitive pass over HashSet / TreeSet: public members with a normal return reached after a write to a')
+    out.append('   structural field of *this (mCount, mCapacity, mBuckets / mCount, mRootNode, mNodeParams) and without IncVersion *)')
+    out.append('Definition version_leaks : list (string * string) := [' +
+               '; '.join('("%s", "%s")' % (c, m.replace('"', "'")) for c, m in leak_rows) + '].')
     return '\n'.join(out) + '\n'
 
 
@@ -194,3 +207,180 @@ if __name__ == '__main__':
     rows = build(os.environ.get('VERIF_REPO', '/repo'), sys.argv[1:] or None)
     for r in rows:
         print('%-12s %-70s all=%s any=%s%s' % (r['class'], r['method'], r['all'], r['any'], '  UNINSTANTIATED' if r['uninstantiated'] else ''))
+
+
+# ------------------------------------------------------------------------------------------------------------------
+# Path-sensitive pass ("no structural write escapes without a bump"): for HashSet / TreeSet, abstract state = (written, bumped)
+# where written = an assignment / ++ / -- / compound assignment to one of this->{structural fields} happened and bumped =
+# this->mCrew.IncVersion() happened.  Every public member function is executed abstractly over its AST (sequencing, if with
+# constant-folded template conditions, loops to a fixpoint, return, throw, try/catch, lambdas as "may run here", calls to own
+# member functions through summaries computed to a fixpoint).  A member LEAKS if some normal return is reachable in state
+# (written, not bumped).  Exceptional exits are ignored (strong exception safety is property C04's business).
+STRUCT_FIELDS = {'HashSet': {'mCount', 'mCapacity', 'mBuckets'}, 'TreeSet': {'mCount', 'mRootNode', 'mNodeParams'}}
+SKIP = ('ImplicitCastExpr', 'ParenExpr', 'SubstNonTypeTemplateParmExpr', 'ConstantExpr', 'ExprWithCleanups', 'MaterializeTemporaryExpr')
+
+
+def _strip(n):
+    while isinstance(n, dict) and n.get('kind') in SKIP and n.get('inner'):
+        n = n['inner'][-1]
+    return n
+
+
+def _on_this(member_expr):
+    """is the object of this MemberExpr (implicitly or explicitly) *this?"""
+    inner = member_expr.get('inner') or []
+    if not inner:
+        return True
+    b = _strip(inner[0])
+    return b.get('kind') == 'CXXThisExpr'
+
+
+class PathPass:
+    def __init__(self, cls, body):
+        self.fields = STRUCT_FIELDS[cls]; self.body = body; self.summ = {i: set() for i in body}
+
+    def is_field(self, n):
+        n = _strip(n)
+        return isinstance(n, dict) and n.get('kind') == 'MemberExpr' and n.get('name') in self.fields and _on_this(n)
+
+    def expr(self, n, S):
+        if not isinstance(n, dict) or not S:
+            return S
+        k = n.get('kind'); inner = n.get('inner') or []
+        if k == 'CXXThrowExpr':
+            for c in inner: S = self.expr(c, S)
+            return set()
+        if k == 'LambdaExpr':
+            lam = set()
+            for c in inner:
+                if c.get('kind') == 'CompoundStmt':
+                    out, R = self.stmt(c, {0}); lam |= out | R
+            return S | {s | e for s in S for e in lam}
+        if k in ('CompoundStmt', 'IfStmt', 'ReturnStmt', 'WhileStmt', 'ForStmt', 'DoStmt', 'CXXForRangeStmt', 'CXXTryStmt', 'DeclStmt',
+                 'SwitchStmt', 'BreakStmt', 'ContinueStmt', 'NullStmt'):
+            out, R = self.stmt(n, S); self.pending_returns |= R
+            return out
+        if k == 'CXXMemberCallExpr' and inner:
+            callee = _strip(inner[0])
+            for c in inner[1:]: S = self.expr(c, S)
+            if callee.get('kind') == 'MemberExpr':
+                base = (callee.get('inner') or [None])[0]
+                S = self.expr(base, S) if base is not None and _strip(base).get('kind') != 'CXXThisExpr' else S
+                if callee.get('name') == 'IncVersion':
+                    crew = _strip(base) if base is not None else {}
+                    if crew.get('kind') == 'MemberExpr' and _on_this(crew):
+                        return {s | 2 for s in S}
+                    return S
+                ref = callee.get('referencedMemberDecl')
+                if ref in self.summ and _on_this(callee):
+                    return {s | e for s in S for e in self.summ[ref]}
+            return S
+        for c in inner:
+            if k in ('BinaryOperator', 'CompoundAssignOperator') and c is inner[0] and self.is_field(c):
+                continue
+            S = self.expr(c, S)
+        if (k == 'CompoundAssignOperator' or (k == 'BinaryOperator' and n.get('opcode') == '=')) and inner and self.is_field(inner[0]):
+            S = {s | 1 for s in S}
+        if k == 'UnaryOperator' and n.get('opcode') in ('++', '--') and inner and self.is_field(inner[0]):
+            S = {s | 1 for s in S}
+        return S
+
+    def stmt(self, n, S):
+        """-> (fall-through states, states at return statements)"""
+        k = n.get('kind'); inner = n.get('inner') or []
+        R = set()
+        if k == 'CompoundStmt':
+            for c in inner:
+                S, r = self.stmt(c, S); R |= r
+            return S, R
+        if k == 'ReturnStmt':
+            saved = self.pending_returns; self.pending_returns = set()
+            for c in inner: S = self.expr(c, S)
+            R = S | self.pending_returns; self.pending_returns = saved
+            return set(), R
+        if k == 'IfStmt':
+            parts = [c for c in inner]
+            has_else = n.get('hasElse', False)
+            body = parts[-2:] if has_else else parts[-1:]
+            pre = parts[:len(parts) - len(body)]
+            cond = _strip(pre[-1]) if pre else {}
+            for c in pre: S = self.expr(c, S)
+            if cond.get('kind') == 'CXXBoolLiteralExpr':
+                if cond.get('value'):
+                    return self.stmt(body[0], S)
+                return self.stmt(body[1], S) if has_else else (S, R)
+            o1, r1 = self.stmt(body[0], S)
+            o2, r2 = self.stmt(body[1], S) if has_else else (S, set())
+            return o1 | o2, r1 | r2
+        if k in ('WhileStmt', 'ForStmt', 'DoStmt', 'CXXForRangeStmt'):
+            head = set(S)
+            self.loop_exits.append(set())
+            while True:
+                cur = set(head)
+                for c in inner:
+                    if isinstance(c, dict) and c:
+                        cur, r = self.stmt(c, cur); R |= r
+                new = head | cur | self.loop_exits[-1]
+                if new == head: break
+                head = new
+            self.loop_exits.pop()
+            return head, R
+        if k in ('BreakStmt', 'ContinueStmt'):
+            if self.loop_exits: self.loop_exits[-1] |= S
+            return set(), R
+        if k == 'CXXTryStmt':
+            o, r = self.stmt(inner[0], S); R |= r
+            entry = S | o          # (states in the middle of the try block are approximated by its entry and exit states)
+            for h in inner[1:]:
+                for c in (h.get('inner') or []):
+                    if c.get('kind') == 'CompoundStmt':
+                        oh, rh = self.stmt(c, entry); o |= oh; R |= rh
+            return o, R
+        if k == 'DeclStmt':
+            for d in inner:
+                for c in (d.get('inner') or []): S = self.expr(c, S)
+            return S, R
+        # expression statement / anything else
+        saved = self.pending_returns; self.pending_returns = set()
+        S = self.expr(n, S) if k not in ('CompoundStmt',) else S
+        R |= self.pending_returns; self.pending_returns = saved
+        return S, R
+
+    def run(self):
+        changed = True; it = 0
+        while changed and it < 12:
+            changed = False; it += 1
+            for i, b in self.body.items():
+                self.pending_returns = set(); self.loop_exits = []
+                comp = next((c for c in b.get('inner', []) if c.get('kind') == 'CompoundStmt'), None)
+                out, R = self.stmt(comp, {0})
+                res = out | R
+                if res != self.summ[i]:
+                    self.summ[i] = res; changed = True
+        return self.summ
+
+
+def leaks(repo, classes=('HashSet', 'TreeSet')):
+    """[(class, method)] public members with a normal return in state (written, not bumped)"""
+    out = []
+    for cls, define in CLASSES:
+        if cls not in classes:
+            continue
+        cfg = {'tu': os.path.join(os.path.dirname(os.path.abspath(__file__)), 'inst.cpp'), 'filter': cls, 'class': cls,
+               'defines': [define], 'includes': [os.path.join(repo, 'include')]}
+        spec = cxx2coq.find_spec(cxx2coq.load_objs(cxx2coq.dump_ast(cfg, repo)), cfg)
+        body = {}; pub = []; acc = 'private'
+        for m in spec.get('inner', []):
+            if m.get('kind') == 'AccessSpecDecl':
+                acc = m.get('access', acc); continue
+            if m.get('kind') not in ('CXXMethodDecl', 'FunctionTemplateDecl'):
+                continue
+            for b in bodies(m):
+                body[b['id']] = b
+                if acc == 'public' and not (m.get('name') or '').startswith('operator='):
+                    pub.append((m.get('name'), params_of(b, cls)[0], b['id']))
+        summ = PathPass(cls, body).run()
+        for name, ps, i in pub:
+            if 1 in summ[i]:
+                out.append((cls, '%s(%s)' % (name, ps)))
+    return sorted(set(out))
